@@ -1,9 +1,12 @@
 package main
 
 import (
+	"context"
 	"fmt"
-	"os"
 
+	"github.com/sdcio/data-server/pkg/utils"
+	sdcpb "github.com/sdcio/sdc-protos/sdcpb"
+	schemaClient "github.com/sdcio/data-server/pkg/datastore/clients/schema"
 	"verif/harness/h"
 )
 
@@ -13,27 +16,12 @@ func main() {
 	if err != nil {
 		panic(err)
 	}
-	dir, _ := h.ScratchDir("probe")
-	defer os.RemoveAll(dir)
-	cc, err := h.NewLocalCache(dir)
-	if err != nil {
-		panic(err)
-	}
-	frags := h.ChoiceFragments()
-	run := func(ops ...h.Op) {
-		w, err := h.NewWorld(u, cc, nil, h.WorldOpts{Fragments: frags})
-		if err != nil {
-			panic(err)
-		}
-		defer w.Close()
-		for _, op := range ops {
-			out := w.Apply(op)
-			c := w.Dev.Calls[len(w.Dev.Calls)-1]
-			fmt.Println(op, "rej:", out.Rejected(), "err:", out.Err, "upd:", c.Updates, "del:", c.Deletes)
-		}
-		fmt.Println("  device:", w.Dev.Snapshot())
-	}
-	S := func(o string, p int32, f string) h.Op { return h.Op{Intents: []h.IntentSpec{{Owner: o, Prio: p, Frag: f}}} }
-	run(S("B", 20, "cb1"), S("A", 25, "cb1"), S("A", 10, "ca1"))
-	run(S("A", 25, "cpc"), S("C", 30, "cab"), S("A", 10, "ca1"))
+	scb := schemaClient.NewSchemaClientBound(u.SchemaCfg.GetSchema(), u.Client)
+	conv := utils.NewConverter(scb)
+	n := &sdcpb.Notification{Update: []*sdcpb.Update{{Path: h.P("if", h.K{"name", "e1"}).Sdcpb(), Value: &sdcpb.TypedValue{Value: &sdcpb.TypedValue_JsonVal{JsonVal: []byte(`{"name":"e1","descr":"j","enabled":false}`)}}}}}
+	nn, err := conv.ConvertNotificationTypedValues(context.Background(), n)
+	fmt.Println(nn, err)
+	n = &sdcpb.Notification{Update: []*sdcpb.Update{{Path: h.P("if", h.K{"name", "e1"}).Sdcpb(), Value: &sdcpb.TypedValue{Value: &sdcpb.TypedValue_JsonVal{JsonVal: []byte(`{"descr":"j"}`)}}}}}
+	nn, err = conv.ConvertNotificationTypedValues(context.Background(), n)
+	fmt.Println(nn, err)
 }
